@@ -108,6 +108,20 @@ add(
     "reproduced from the restored generator state). Engine-class specific draws (ASE, TurtleMD, LAMMPS, CP2K) are covered with C16's machinery when registered there.",
 )
 
+add(
+    "C17",
+    "grid enumeration of (workers, steps, restart point, extension, completion order) through a deterministic runner + property-based testing of the real aiorunner",
+    "(a) every combination of 3-5 interfaces, 1..n-1 workers, step counts W..W+6, restart point (clean stop or kill after k completions), "
+    "extension steps..steps+W+2 and three completion-order policies is run through the real scheduler with a deterministic runner "
+    "(thorough: full grid; quick: boundary subset): jobs issued = results consumed = requested moves per lifetime, step counter in the restart "
+    "file, nothing left in flight / in the restart record / in the runner, a finished run restarted does nothing. (b) the real aiorunner "
+    "(asyncio thread + process pool) with generated task durations (ties), failing tasks, 1-4 workers and consumer lags: every unit executed "
+    "exactly once, every result or exception delivered exactly once to its own future, stop() returns. (c) real scheduler+aiorunner "
+    "end-to-end vs the deterministic runner: identical files.",
+    "The asyncio/process-pool interleaving of aiorunner is driven (durations, lags), not owned: an interleaving-specific lost wake-up could escape. "
+    "Pool processes surviving stop() until interpreter exit are reported, not judged.",
+)
+
 NOT_YET = "check not built yet in this session (design exists in DESIGN.md §4); will be claimed once its check is registered"
 
 
